@@ -19,7 +19,8 @@ func init() {
 
 func checkC06(c *Ctx, r *Report) {
 	runEDrop(c, r, nil, 60)
-	checkBothCopies(c, r) // both version reads are checked against the dimension: ReadCodewords sizes its result by the version (also C05)
+	checkBothCopies(c, r)
+	checkAztecRSBeforeUnstuff(c, r) // the codeword counts handed to the Reed-Solomon decoder are checked first: a negative parity count panics (also C11, C09) // both version reads are checked against the dimension: ReadCodewords sizes its result by the version (also C05)
 	nf := c.newNilFlow()
 	var roots []*ssa.Function
 	roots = append(roots, nf.entryMethods("", "Reader", "Decode")...)
@@ -53,6 +54,7 @@ func checkC06(c *Ctx, r *Report) {
 	readers := nf.entryMethods("", "Reader", "Decode")
 	runEKIND(c, r, nf, readers, 5)
 	reach := nf.reachableFrom(roots)
+	checkCallbackNil(c, r, reach)
 	nonZeroHook = func(call *ssa.Call, idx int) bool {
 		cs := nf.callees(call)
 		if len(cs) == 0 {
@@ -491,4 +493,90 @@ func checkGuardOrder(c *Ctx, r *Report, reach map[*ssa.Function]bool) {
 	}
 	r.Extra("E-GUARDORDER short-circuit conditions", n)
 	r.Extra("E-GUARDORDER guarded reads", guarded)
+}
+
+// E-CALLBACKNIL: a result-point callback taken from the hints is tested before it is invoked
+func checkCallbackNil(c *Ctx, r *Report, reach map[*ssa.Function]bool) {
+	r.Rule("E-CALLBACKNIL", "every invocation of a value of type gozxing.ResultPointCallback on a decode path is dominated by a test that the value is not nil: the callback arrives through the hints map (a well-typed hint value may be a nil function, which a type assertion accepts) or through a field that is nil when no hint was given; sibling readers agree on this test - one obligation per invocation", 5)
+	var fns []*ssa.Function
+	for f := range reach {
+		if f.Blocks != nil && isRepoPkgFn(f) {
+			fns = append(fns, f)
+		}
+	}
+	sort.Slice(fns, func(i, j int) bool { return fns[i].String() < fns[j].String() })
+	same := func(a, b ssa.Value) bool {
+		if a == b {
+			return true
+		}
+		la, ok1 := a.(*ssa.UnOp)
+		lb, ok2 := b.(*ssa.UnOp)
+		if !ok1 || !ok2 || la.Op != token.MUL || lb.Op != token.MUL {
+			return false
+		}
+		if la.X == lb.X {
+			return true
+		}
+		fa, ok1 := la.X.(*ssa.FieldAddr)
+		fb, ok2 := lb.X.(*ssa.FieldAddr)
+		return ok1 && ok2 && fa.X == fb.X && fa.Field == fb.Field
+	}
+	isNil := func(v ssa.Value) bool {
+		k, ok := v.(*ssa.Const)
+		return ok && k.IsNil()
+	}
+	for _, f := range fns {
+		n := 0
+		for _, b := range f.Blocks {
+			for _, in := range b.Instrs {
+				call, ok := in.(*ssa.Call)
+				if !ok || call.Call.IsInvoke() || call.Call.StaticCallee() != nil {
+					continue
+				}
+				nt, ok := call.Call.Value.Type().(*types.Named)
+				if !ok || nt.Obj().Name() != "ResultPointCallback" {
+					continue
+				}
+				key := fmt.Sprintf("%s:callback#%d", shortFn(f), n)
+				n++
+				r.Analysed(key)
+				v := call.Call.Value
+				proven := false
+				for _, blk := range f.Blocks {
+					if proven || len(blk.Instrs) == 0 {
+						break
+					}
+					iff, ok := blk.Instrs[len(blk.Instrs)-1].(*ssa.If)
+					if !ok {
+						continue
+					}
+					bo, ok := iff.Cond.(*ssa.BinOp)
+					if !ok || (bo.Op != token.NEQ && bo.Op != token.EQL) {
+						continue
+					}
+					var other ssa.Value
+					switch {
+					case isNil(bo.Y):
+						other = bo.X
+					case isNil(bo.X):
+						other = bo.Y
+					default:
+						continue
+					}
+					if !same(other, v) {
+						continue
+					}
+					side := 0 // NEQ: true edge is non-nil
+					if bo.Op == token.EQL {
+						side = 1
+					}
+					succ := blk.Succs[side]
+					if len(succ.Preds) == 1 && (succ == b || succ.Dominates(b)) {
+						proven = true
+					}
+				}
+				r.Check(proven, "E-CALLBACKNIL", key, c.pos(call.Pos()), "the callback is invoked without a dominating test that it is not nil: a hints map carrying a nil ResultPointCallback (or no callback at all, for a field) makes the reader panic")
+			}
+		}
+	}
 }
